@@ -43,7 +43,7 @@ func c09Answers(name vfkit.Name, sc *c09Script) []vfkit.RR {
 }
 
 func TestVfC09Listeners(t *testing.T) {
-	st := vfkit.Stats("TestVfC09Listeners", "upstream (TCP) answers of generated size (0-300 records of 8-200 octets in all sections, up to ~64 KiB, incl. messages whose compressed form fits in 64 KiB while the uncompressed does not) requested over UDP with EDNS sizes {none,300,512,600,1232,4096,65535} and over tcp/gnet/tls/quic/http/fasthttp/https; oracles: datagram <= max(512, advertised), stream/HTTP body <= 65535 with matching prefix, decodes cleanly, TC iff records are missing, question and OPT kept, kept answer/authority records are an in-order subsequence of the upstream's; non-trivial = the limit bites or the answer is within 40 octets of it")
+	st := vfkit.Stats("TestVfC09Listeners", "upstream (TCP) answers of generated size (0-300 records of 8-200 octets in all sections, up to ~64 KiB, incl. messages whose compressed form fits in 64 KiB while the uncompressed does not) requested over UDP with EDNS sizes {none,300,512,600,1232,4096,65535} (in two queries of five with a type-41 record in the query's answer or authority section, which advertises nothing) and over tcp/gnet/tls/quic/http/fasthttp/https; oracles: datagram <= max(512, advertised), stream/HTTP body <= 65535 with matching prefix, decodes cleanly, TC iff records are missing, question and OPT kept, kept answer/authority records are an in-order subsequence of the upstream's; non-trivial = the limit bites or the answer is within 40 octets of it")
 	defer vfkit.Flush()
 	block := NextIPBlock()
 	var scripts sync.Map
@@ -137,6 +137,17 @@ func TestVfC09Listeners(t *testing.T) {
 			case "both":
 				qm.Ar = append(append([]vfkit.RR{other}, qm.Ar...), other)
 			}
+		}
+		// A type-41 record outside the additional section is not the client's OPT (RFC 6891 6.1.1): a query that carries
+		// one in its answer or authority section advertises nothing by it.
+		if decoy := rapid.SampledFrom([]string{"", "", "", "answer", "authority"}).Draw(t, "type41Elsewhere"); decoy != "" {
+			rr := vfkit.RR{Type: 41, Class: rapid.SampledFrom([]uint16{1232, 4096, 65535}).Draw(t, "decoySize"), RData: []vfkit.RDPart{{Raw: []byte{}}}}
+			if decoy == "answer" {
+				qm.An = []vfkit.RR{rr}
+			} else {
+				qm.Ns = []vfkit.RR{rr}
+			}
+			optCompany += "+type41-in-" + decoy
 		}
 		a := NewAsker(pip, "")
 		defer a.Close()
